@@ -158,16 +158,32 @@ def make_stream(kind, data, load=0, exec_=0):
     return bytes(data)
 
 
-def write(files, fill=0xFF, killed=()):
+def write(files, fill=0xFF, killed=(), tight=False):
     """
     Independent writer. files: dicts name, ext, type, dtype, stream(bytes), chain(list of granules, long enough), slot(optional).
     killed: directory slots that hold a KILLed file (first byte $00, the rest of the old entry left behind, its granules free).
+    tight: a stream that ends exactly at a sector / granule boundary is stored the way Disk BASIC stores it - no spare granule, the
+    last sector counted as full (256 bytes in it) - instead of with an empty extra sector.
     """
     img = bytearray([fill]) * IMAGE_SIZE
     img[FAT_OFF:FAT_OFF + 256] = b"\xFF" * NGRAN + b"\x00" * (256 - NGRAN)
     for k, f in enumerate(files):
         stream = f["stream"]
         need = len(stream) // GRAN + 1
+        if tight and stream and len(stream) % 256 == 0:
+            need = (len(stream) + GRAN - 1) // GRAN
+            chain = f["chain"][:need]
+            for i, g in enumerate(chain):
+                part = stream[i * GRAN:(i + 1) * GRAN]
+                img[gran_off(g):gran_off(g) + len(part)] = part
+                if i + 1 < need:
+                    img[FAT_OFF + g] = chain[i + 1]
+            tail = len(stream) - (need - 1) * GRAN
+            img[FAT_OFF + chain[-1]] = 0xC0 + tail // 256
+            slot = f.get("slot", k)
+            img[DIR_OFF + 32 * slot:DIR_OFF + 32 * slot + 32] = f["name"].upper().encode("latin1")[:8].ljust(8) + \
+                f["ext"].upper().encode("latin1")[:3].ljust(3) + bytes([f["type"], f["dtype"], chain[0], 0x01, 0x00]) + bytes(16)
+            continue
         chain = f["chain"][:need]
         assert len(chain) == need, "chain too short"
         for i, g in enumerate(chain):
